@@ -202,7 +202,7 @@ impl Ctx {
         self.build.starts_with("asan")
     }
     pub fn is_instrumented(&self) -> bool {
-        matches!(self.build.as_str(), "asan" | "tsan" | "vg" | "miri" | "miri-rv64")
+        matches!(self.build.as_str(), "asan" | "tsan" | "vg" | "miri" | "miri-rv64" | "miri-a64")
     }
     /// record a violation with a *signature* (stable cause description, used for known findings)
     pub fn fail(&mut self, sig: &str, msg: String) {
